@@ -41,12 +41,25 @@ TreeOut(s) == [i \in 1..Len(s.nodes) |->
 Out(s) == <<SetToSeq(s.devs), s.v, s.why, s.warg, s.bad, SetToSeq(s.irr),
             IF s.v = "acc" THEN TreeOut(s) ELSE <<>>, SetToSeq(s.loaded)>>
 
+RefPaths == {p \in paths : p.devs = {}}
 Running == {p \in paths : p.v = "run"}
 Emit == PrintT(ToJson(<<toks, Cardinality(Running),
                         SetToSeq({Out(q) : q \in Advance(paths, EOFTok)})>>))
 
+\* ------------------------------------------------- simulation (deep scripts)
+\* Random walks that stay inside the language: only tokens after which the
+\* reference path is still running.  Used with `tlc -simulate'; a line is
+\* printed for every prefix that is a complete valid script.
+SimNext == /\ Len(toks) < MaxLen
+           /\ \E i \in 1..Len(Vocab) :
+                 LET nx == Advance(paths, Vocab[i]) IN
+                 /\ \E p \in nx : p.devs = {} /\ p.v = "run" /\ p.irr = {}
+                 /\ paths' = nx
+                 /\ toks' = Append(toks, i)
+SimSpec == Init /\ [][SimNext]_vars
+EmitAcc == (\E q \in Advance(RefPaths, EOFTok) : q.v = "acc") => Emit
+
 \* ------------------------------------------------------------ invariants
-RefPaths == {p \in paths : p.devs = {}}
 OneRefPath == Cardinality(RefPaths) = 1          \* the reference is deterministic
 GatedInv == \A p \in paths : Gated(T, p)         \* C07 at design level
 RejectSticksInv == \A p \in paths : RejectSticks(p)
